@@ -15,6 +15,7 @@ func init() {
 		Explanation: "Decides structural clauses of retention enforcement: D1 provenance of what is deleted: in retention.(*Service).run a local shard is handed to DeleteShard only on a hit in the map whose every store takes its key from a shard of a group returned by DeletedShardGroups() or by ExpiredShardGroups(now) after DeleteShardGroup returned nil; both listings are consulted for every retention policy on every pass; " +
 			"D2 the expiry/deleted predicates equal their specification on every ordering (shared truth tables; the expiry test must stay inside the comparison-only fragment of time.Time, so int64 nanosecond arithmetic that can overflow is rejected); D3 frozen table of the call sites that may delete a shard; " +
 			"D4 every pass prunes, and an error never aborts the pass; D5 the write-time cut-off and the rule that a point inside retention is never reported as dropped (shared with C08). " +
+			"D7 a group is marked deleted exactly when the shard removed from it was its last one (length before the removal against 1, or after it against 0). " +
 			"NOT decided: 'eventually' (liveness of the ticker), clock behaviour.",
 		RuleText:    "obligation = (rule, function/site); map-store provenance through range statements; outcome facts; per-iteration call counting; exhaustive predicate evaluation",
 		Assumptions: commonAssumptions,
